@@ -1409,7 +1409,34 @@ def suite_e2e_defaults(ctx: Ctx, drv, defaults, kinds_per_value: int, only_kind=
             elif mode == "factory" and isinstance(x1, _MUTABLE) and x1 is x2:
                 ctx.fail("default:factory-result-shared", f"{kind}: two loads share the object produced by the default "
                          f"factory {d!r}", case)
-            else:
+            # ---- the input is any mapping: one whose __getitem__ never raises KeyError (defaultdict, Counter, a dict subclass
+            # with __missing__) still OMITS the key, and loading does not add keys to it
+            import collections
+
+            class _Missing(dict):
+                def __missing__(self, key):
+                    return "<from __missing__>"
+            for mk_input in (lambda: collections.defaultdict(lambda: "<from default_factory>", {"r": 1}),
+                             lambda: collections.Counter({"r": 1}), lambda: _Missing(r=1),
+                             lambda: collections.ChainMap({"r": 1}), lambda: collections.OrderedDict(r=1)):
+                inp = mk_input()
+                tname = type(inp).__name__
+                try:
+                    o4 = loader(inp)
+                except Exception as e:  # noqa: BLE001
+                    ctx.dist[f"e2e-input-{tname}-refused-{type(e).__name__}"] += 1
+                    continue
+                ctx.note_case(dict(case, input=tname), nontrivial=True, kind=f"e2e-input-{tname}")
+                if not py_same(o4.x, xr):
+                    ctx.fail("default:omitted-field-other-value:mapping-input", f"{kind} model, field omitted in a {tname} input: "
+                             f"holds {o4.x!r}; the model itself produces {xr!r} from its declared default ({mode})",
+                             dict(case, input=tname))
+                    break
+                if set(inp.keys()) != {"r"}:
+                    ctx.fail("call:input-mutated", f"{kind} model: loading added keys to the {tname} input: {sorted(map(str, inp.keys()))}",
+                             dict(case, input=tname))
+                    break
+            if True:
                 # history: load, modify the loaded object's defaulted container in place, load again with the field omitted
                 target = _first_mutable(x1)
                 if target is not None and _first_mutable(xr) is not target and _first_mutable(d) is not target:
